@@ -397,10 +397,41 @@ func runC09(c *core.Ctx, o Options) {
 		s := w.s
 		s.checkRestore("X1", w.inAll)
 	}
-	// X2
-	arg := an.Render(w.timers[cell].Call.Args[0])
-	want := "(1000000000 * time.Duration((s.LogonSettings.HeartBtInt + int(math.Max(float64((s.LogonSettings.HeartBtInt / 20)), 1)))))"
-	c.Check(arg == want, "X2", "start", "probe period is time.Second × (HeartBtInt + max(1, HeartBtInt/20))", w.timers[cell].Pos(), arg, "the inbound timer's period is "+arg+"; expected "+want)
+	// X2: period = time.Second × (H + T) with T = max(1, H/20), H the negotiated HeartBtInt (integer division)
+	{
+		H := "s.LogonSettings.HeartBtInt"
+		call := w.timers[cell]
+		ob := c.Ob("X2", "start", "probe period is time.Second × (HeartBtInt + max(1, HeartBtInt/20))", call.Pos())
+		paths, _ := an.EnumPaths(w.start, 4096)
+		bad, n := "", 0
+		for _, p := range paths {
+			if !p.Passes(call) {
+				continue
+			}
+			n++
+			arg := an.RenderOnPath(call.Call.Args[0], p)
+			pre, suf := "(1000000000 * time.Duration(("+H+" + ", ")))"
+			if !strings.HasPrefix(arg, pre) || !strings.HasSuffix(arg, suf) {
+				bad = "the period is " + arg
+				break
+			}
+			t := strings.TrimSuffix(strings.TrimPrefix(arg, pre), suf)
+			q := "(" + H + " / 20)"
+			d := an.PathDBM(p)
+			switch {
+			case t == "int(math.Max(float64("+q+"), 1))":
+			case t == "1" && d.Entails(an.Lin{Term: q}, an.Lin{K: 1}, true):
+			case t == q && d.Entails(an.Lin{K: 1}, an.Lin{Term: q}, false):
+			default:
+				bad = "the tolerance added to the interval is " + t + " under [" + p.CondString() + "]; expected max(1, HeartBtInt/20)"
+			}
+		}
+		if bad != "" || n == 0 {
+			ob.Fail("%s", bad)
+		} else {
+			ob.Ok("%d path(s): time.Second × (HeartBtInt + max(1, HeartBtInt/20))", n)
+		}
+	}
 	// X3
 	var bad []string
 	nDisc, nProbe, nIdle := 0, 0, 0
